@@ -130,3 +130,24 @@ Example ex_complete :
   exists v, decode jcfg ex_fs (Some (JObj [("m", JObj [])])) = Some v /\
             meets jcfg ex_fs (Some (JObj [("m", JObj [])])) = true.
 Proof. eexists. vm_compute. split; reflexivity. Qed.
+
+(* anonymous (embedded) structs: members are read from the enclosing object; one tagged
+   ",optional" is built only when some member is supplied, must then be fully set (every member
+   supplied, defaulted or optional), and its absent defaulted members hold their defaults *)
+Definition ex_embedded : fields :=
+  FCons "z" (Some (mkOpts true None None None [] false)) (TPrim (KInt W0))
+ (FEmbed true true
+    (FCons "a" (Some (mkOpts false None None (Some r15) [] false)) (TPrim (KInt W0))
+    (FCons "b" (Some (mkOpts false None (Some "5") None ["5"; "6"] false)) (TPrim (KInt W0))
+    (FCons "c" (Some (mkOpts true None (Some "7") None [] false)) (TPrim (KInt W8)) FNil)))
+ (FEmbed false false (FCons "q" None (TPrim KStr) FNil) FNil)).
+
+Example ex_embedded_cases :
+  unmarshal fixed jcfg ex_embedded (Some (JObj [("q", JStr "s")])) = Ok (VStruct [VInt 0; VNil; VStruct [VStr "s"]])
+  /\ unmarshal fixed jcfg ex_embedded (Some (JObj [("q", JStr "s"); ("a", JNum "2")])) =
+     Ok (VStruct [VInt 0; VPtr (VStruct [VInt 2; VInt 5; VInt 7]); VStruct [VStr "s"]])
+  /\ unmarshal fixed jcfg ex_embedded (Some (JObj [("q", JStr "s"); ("c", JNum "1")])) = Err ENotSet
+  /\ unmarshal fixed jcfg ex_embedded (Some (JObj [("q", JStr "s"); ("a", JNum "9")])) = Err ERange
+  /\ meets jcfg ex_embedded (Some (JObj [("q", JStr "s"); ("c", JNum "1")])) = false
+  /\ fields_ok ex_embedded = true.
+Proof. vm_compute. repeat split. Qed.
